@@ -15,6 +15,7 @@ CONSTANTS
   MaxDev = 3
   MaxOps = 6
   StaleClaim = FALSE
+  EmitMod = 16
 CONSTRAINT Bound
 VIEW View
 INVARIANT AllOrNothing
